@@ -17,7 +17,7 @@ package header
 //@ func checksum(data []byte) (sum uint32)   props: C03
 //@   modifies nothing
 
-//@ func Write(w io.Writer, scalerType uint32, tables map[string][]byte) (n int64, err error)   props: C18 C03 C16
+//@ func Write(w io.Writer, scalerType uint32, tables map[string][]byte) (n int64, err error)   props: C18 C03 C16 C01
 //@   requires w != nil && len(tables) <= 65535
 //@   requires has(tables, "head") && len(tables["head"]) >= 12
 //@   ensures n == accepted(w) - old(accepted(w))
@@ -35,7 +35,7 @@ package header
 //@   loop 2
 //@     invariant totalSize == accepted(w) - old(accepted(w)) && wfaults(w) == old(wfaults(w))
 
-//@ func Read(r io.ReaderAt) (info *Info, err error)   props: C02 C18 C03
+//@ func Read(r io.ReaderAt) (info *Info, err error)   props: C02 C18 C03 C01
 //@   requires r != nil
 //@   ensures faults(r) > old(faults(r)) ==> err != nil
 //@   ensures err == nil ==> info != nil && len(info.Toc) >= 1
